@@ -39,7 +39,11 @@ ASSUMPTIONS = [
     '(no axiom)',
     'controller family: the real Controller and CheckStatus are driven by harness/c20_ctl.py (terminations delivered '
     'through Controller.finishedCheck, nothing is launched; harness/c05_impl.py documents/_new_controller imported '
-    'read-only); a node counts as active until finishedCheck returned for it',
+    'read-only); a node counts as active until finishedCheck returned for it; a RESTART from a later stage is the first '
+    'Controller.initialise() being called for that stage (c05_impl._new_controller(exp, start)) - the earlier stages '
+    'count as completed by an earlier run, nothing is delivered for them (the model marks them: Model.restart_nodes); '
+    'restarts in the middle of a DoWhile that iterates again are not generated (the next iteration cannot be '
+    'instantiated, the workflow fails); C20_restart_lists, C20_restart_progress are closed under the global context',
 ]
 HEADER = 'Require Import V.Weights.Model.\nOpen Scope Z_scope.'
 CHECKER = 'check_case'
@@ -218,7 +222,9 @@ def run(ctx):
                 'usable) x kind of malformed entry (unparsable text, nan or inf as float or text, None/list/mapping), '
                 'loaded through inject_default_values and then StatusMonitor, or set after loading (the monitor alone); '
                 'controller family: DoWhile over 1-4 stages x 1-2 components per stage x 1-3 iterations x plain stage '
-                'before/after x order of the terminations, through the real Controller and the real CheckStatus')
+                'before/after x order of the terminations x stage the run starts at (0 = launch; a later stage = '
+                'RESTART: before / at the first stage of / after the loop, inside a loop that does not iterate again), '
+                'through the real Controller and the real CheckStatus')
     rng = ctx.rng
     ns = list(range(1, 61)) + [99, 100, 101, 333, 999, 1000, 1001, 1500]
     kinds = ['missing', 'exact3', 'exact3_some_missing', 'off3', 'negative', 'four']
@@ -244,7 +250,10 @@ def run(ctx):
     _explore_malformed(ctx, direct, direct=True)
     ctx.count('malformed_cases', len(load) + len(direct))
     # the real Controller driven through DoWhile iterations: which stages the report counts
-    _explore_controller(ctx, CTL_CORPUS + [gen_ctl(rng) for _ in range(3 if ctx.tier == 'quick' else 24)])
+    # (launched from stage 0 or RESTARTED from a later stage)
+    quick = ctx.tier == 'quick'
+    _explore_controller(ctx, CTL_CORPUS + [gen_ctl(rng) for _ in range(3 if quick else 24)]
+                        + [gen_ctl(rng, restart=True) for _ in range(2 if quick else 10)])
 
 
 def replay(ctx, path):
@@ -664,23 +673,51 @@ def malformed_cases(rng, tier):
 
 # ----------------------------------------------------------------------------------------------------------
 # The REAL Controller: which stages CheckStatus counts while nodes are added to stages that had finished
-SCHECKER = 'check_scase'
+SCHECKER = 'check_rcase'
 CTL_CORPUS = [
     # a loop over three stages after a plain stage, two iterations (a stage other than the current one finishes, then
     # the next iteration adds a node to it); the same with two components per stage; a loop over two stages
     {'pre': 1, 'K': 3, 'width': [1, 1, 1], 'iters': 2, 'post': 0, 'weights': [200, 200, 500, 100], 'seed': 1},
     {'pre': 0, 'K': 2, 'width': [1, 2], 'iters': 2, 'post': 1, 'weights': None, 'seed': 2},
+    # RESTARTS from a later stage ('start' > 0: the first Controller.initialise is for that stage, the stages before it
+    # were completed by an earlier run): at a plain stage before a loop that then iterates; at the first stage of the
+    # loop with the default weights; at the last stage (everything else skipped, the loop never runs); in the middle of
+    # a loop that does not iterate again
+    {'pre': 2, 'K': 2, 'width': [1, 2], 'iters': 2, 'post': 1, 'weights': [400, 300, 100, 100, 100], 'seed': 3, 'start': 1},
+    {'pre': 1, 'K': 2, 'width': [1, 1], 'iters': 2, 'post': 0, 'weights': None, 'seed': 4, 'start': 1},
+    {'pre': 1, 'K': 2, 'width': [2, 1], 'iters': 1, 'post': 1, 'weights': [100, 200, 300, 400], 'seed': 5, 'start': 3},
+    {'pre': 0, 'K': 3, 'width': [1, 1, 1], 'iters': 1, 'post': 0, 'weights': [500, 250, 250], 'seed': 6, 'start': 1},
 ]
 
 
-def gen_ctl(rng):
+def restart_stages(case):
+    """the stages > 0 a run of the case may be restarted from: any stage outside the interior of the loop, and any
+    stage at all when the loop does not iterate again (a restart in the middle of a DoWhile that iterates again cannot
+    instantiate the next iteration - the workflow fails, there is no progress of a completed workflow to judge)"""
+    pre, K = case['pre'], case['K']
+    n = pre + K + case['post']
+    return [s for s in range(1, n) if s <= pre or s >= pre + K or case['iters'] == 1]
+
+
+def gen_ctl(rng, restart=None):
+    """restart: None = an ordinary launch (stage 0) or a restart from a later stage, evenly; True = a restart"""
     K = rng.choice([1, 2, 3, 3, 3, 4])
     pre, post = rng.randint(0, 1), rng.randint(0, 1)
+    restart = (rng.random() < 0.5) if restart is None else restart
+    if restart:
+        pre = rng.randint(0, 2)
+        if pre + post == 0 and K == 1:
+            pre = 1
     n = pre + K + post
     cuts = sorted(rng.randint(0, 1000) for _ in range(n - 1))
     w = [b - a for a, b in zip([0] + cuts, cuts + [1000])]
-    return {'pre': pre, 'K': K, 'width': [rng.randint(1, 2) for _ in range(K)], 'iters': rng.randint(1, 3), 'post': post,
+    case = {'pre': pre, 'K': K, 'width': [rng.randint(1, 2) for _ in range(K)], 'iters': rng.randint(1, 3), 'post': post,
             'weights': w if rng.random() < 0.7 else None, 'seed': rng.randint(0, 10 ** 6)}
+    if restart:
+        if not restart_stages(case):
+            case['iters'] = 1
+        case['start'] = rng.choice(restart_stages(case))
+    return case
 
 
 def _explore_controller(ctx, cases):
@@ -697,6 +734,16 @@ def _explore_controller(ctx, cases):
             continue
         w = [Fraction(repr(x)) for x in obs['weights']]
         n = len(w)
+        start = obs.get('start', 0)
+        skipped_weight = sum(w[:start])
+        ctx.count('controller:ordinary_launch_from_stage_0' if start == 0 else 'controller:restart_from_a_later_stage')
+        if start:
+            first_loop, last_loop = case['pre'], case['pre'] + case['K'] - 1
+            ctx.count('controller:restart_' + ('before_the_loop' if start < first_loop else 'at_the_first_stage_of_the_loop'
+                                               if start == first_loop else 'inside_the_loop' if start <= last_loop
+                                               else 'after_the_loop'))
+            if skipped_weight > 0:
+                ctx.count('controller:restart_skips_stages_with_weight')
         seen_again = False
         was_finished = set()
         for ev in obs['events']:
@@ -705,6 +752,17 @@ def _explore_controller(ctx, cases):
             both = sorted(set(ev['finished']) & set(ev['transit']))
             if both:
                 ctx.fail(shown, 'stages %s are reported both finished and in transit' % both, [])
+            neither = sorted(set(range(n)) - set(ev['finished']) - set(ev['transit']))
+            if neither:
+                ctx.fail(shown, 'stages %s are reported neither finished nor in transit: their weight is not counted'
+                         % neither, [])
+            unknown = sorted((set(ev['finished']) | set(ev['transit'])) - set(range(n)))
+            if unknown:
+                ctx.fail(shown, 'stages %s are reported but do not exist' % unknown, [])
+            not_done = sorted(set(range(start)) - set(ev['finished']))
+            if not_done:
+                ctx.fail(shown, 'the run was restarted from stage %d but the stages %s completed before are not '
+                         'reported finished' % (start, not_done), [])
             if was_finished & set(ev['transit']):
                 seen_again = True
             was_finished |= set(ev['finished'])
@@ -717,7 +775,10 @@ def _explore_controller(ctx, cases):
                 ctx.fail(shown, 'total progress outside [0,1]', [])
             if ev['event'] == 'end' and (tp is None or abs(Fraction(tp) - 1) > proved_bound(n, 1)):
                 ctx.fail(shown, 'total progress is not one when every stage completed', [])
-            terms.append(cpair(cpair(clist(list(range(n)), cZ),
+            if tp is not None and Fraction(tp) < skipped_weight - proved_bound(n, skipped_weight):
+                ctx.fail(shown, 'total progress is below the weight %s of the stages completed before the restart'
+                         % float(skipped_weight), [])
+            terms.append(cpair(cpair(cpair(cZ(start), clist(list(range(n)), cZ)),
                                      clist([cpair(cZ(a), cbool(b)) for a, b in ev['nodes']], str)),
                                cpair(clist(ev['finished'], cZ), clist(ev['transit'], cZ))))
             tcases.append(shown)
@@ -728,7 +789,8 @@ def _explore_controller(ctx, cases):
     bad = ctx.model_mismatches(HEADER, terms, SCHECKER, chunk=300, name='model_ctl')
     for i in bad:
         ctx.disagree(tcases[i], terms[i][-300:], '', 'C20 stages counted: Controller.get_stages_finished/'
-                     'get_stages_in_transit vs Weights.Model.stages_finished/stages_in_transit')
+                     'get_stages_in_transit vs Weights.Model.ctl_finished/ctl_in_transit (stages_finished/'
+                     'stages_in_transit after Model.restart_nodes)')
 
 
 def _explore(ctx, cases, complete=False):
